@@ -15,7 +15,8 @@ from lib import gz, gtext, glist, gbool, gopt, gpair
 
 THEOREMS = ['C03_s2cmi_rank', 'C03_request_fidelity', 'C03_qs_roundtrip', 'C03_get_fidelity',
             'C03_flatten_roundtrip', 'C03_request_fidelity_pinned_refuted',
-            'C03_request_fidelity_pinned_strict_refuted', 'C03_flatten_roundtrip_refuted']
+            'C03_request_fidelity_pinned_strict_refuted', 'C03_flatten_roundtrip_refuted',
+            'C03_response_fidelity']
 SRC_THEOREMS = ['C03_source_tie']
 
 IMPORTS = 'From SpyneV Require Import Base.Prelude C03.Model C03.Check C03.Spec.'
@@ -1029,6 +1030,9 @@ def oracle_response(check, impl, tier):
     H = ComplexModel.__class__('C03RespHeader', (ComplexModel,),
                                {'_type_info': [('X-Count', Integer), ('Set-Cookie', String(max_occurs='unbounded')),
                                                ('X-Note', Unicode)], '__namespace__': 'c03'})
+    hfs = [('X-Count', {'k': 'prim', 'arr': False}), ('Set-Cookie', {'k': 'prim', 'arr': True}),
+           ('X-Note', {'k': 'prim', 'arr': False})]
+    rcases = []
     for i in range(n):
         kind = rng.choice(['u', 'i', 'b'])
         if kind == 'u':
@@ -1058,6 +1062,15 @@ def oracle_response(check, impl, tier):
         if got != body:
             check.fail('C03|response|%s|body' % kind, 'returning %r: body %r, expected %r' % (val, got, body), case)
         hl = [(k, v) for k, v in headers]
+        # model vs implementation: the whole header list and the body
+        ct = [v for k, v in hl if k == 'Content-Type']
+        if len(ct) == 1 and all(isinstance(v, str) for _, v in hl):
+            hinst = [['X-Count', ['S', str(cnt)]], ['Set-Cookie', ['L', cookies] if cookies else ['N']], ['X-Note', ['S', note]]]
+            rcases.append(('(%s, %s, %s, %s, %s, %s)' % (
+                glist(['(%s, FOne %s)' % (gtext('Content-Type'), gtext(ct[0]))]), gfields(hfs), gobj(hinst),
+                glist([gtext(body.decode('latin1'))]),
+                glist(['(%s, %s)' % (gtext(k), gtext(v)) for k, v in hl]), gtext(got.decode('latin1'))),
+                'response returning %r with headers %r' % (val, hinst)))
         exp = [('X-Count', str(cnt)), ('X-Note', note)] + [('Set-Cookie', c) for c in cookies]
         for k, v in exp:
             if (k, v) not in hl:
@@ -1069,6 +1082,13 @@ def oracle_response(check, impl, tier):
         cl = [v for k, v in hl if k.lower() == 'content-length']
         if cl and cl != [str(len(body))]:
             check.fail('C03|response|header|Content-Length', 'Content-Length %r for a body of %d bytes' % (cl, len(body)), case)
+    lib.correspond(check, 'http_response', IMPORTS,
+                   'list (text * fval) * list (text * ty) * list (text * val) * list text * list (text * text) * text',
+                   '(fun c => let \'(base, hfs, hinst, chunks, hs, body) := c in '
+                   'let r := http_response base hfs hinst chunks in '
+                   'list_eqb (fun a b => text_eqb (fst a) (fst b) && text_eqb (snd a) (snd b)) (fst r) hs && text_eqb (snd r) body)',
+                   rcases, show='(fun c : list (text * fval) * list (text * ty) * list (text * val) * list text * list (text * text) * text => '
+                                'let \'(base, hfs, hinst, chunks, hs, body) := c in http_response base hfs hinst chunks)')
 
 
 def run(check):
